@@ -14,7 +14,8 @@ PROP = {
     "level_note": ("Trusted: the kernel's loopback transport, poll()/TIOCOUTQ/SO_MEMINFO as ground truth for 'readable', "
                    "'bytes still in flight' and 'kernel dropped'; std::net peers in the thread-peer variant. Not covered: "
                    "Unix datagram sockets (compio-net offers none), out-of-band data, Windows. A TSan leg was left out: the "
-                   "code under test runs on one thread per runtime, the only second thread is a std::net peer."),
+                   "code under test runs on one thread per runtime, the only second thread is a std::net peer."
+                   " Builds: the fusion build (both drivers in one binary) carries the bulk of the runs; the legs `iour-only` / `poll-only` repeat the workloads with compio-driver compiled for a single driver (io-uring only is the default build of compio), so the #[cfg(not(fusion))] glue is exercised too, at a smaller volume."),
     "technique": ("runtime monitoring: end-to-end byte-stream / datagram / connection oracles with position-dependent "
                   "content, receive buffers with tail patterns, kernel-state probes for stall analysis; AddressSanitizer"),
     "rule": ("program = family (stream | dgram | accept) x transport x driver x connection set-up (compio connect/accept, "
@@ -40,5 +41,17 @@ PROP = {
          "args": {"quick": ["--iters", 60, "--budget-ms", 60000, "--watchdog-ms", 60000],
                   "thorough": ["--iters", 700, "--budget-ms", 420000, "--watchdog-ms", 90000]},
          "timeout_s": {"quick": 400, "thorough": 1200}},
+        # single-driver configuration of compio-driver (the #[cfg(not(fusion))] glue of the multishot / zero-copy / managed
+        # operations; `iour-only` is compio's default build)
+        {"name": "iour-only", "build": "plain-iour", "pkg": "vrt", "cmd": "c14", "shards": 4,
+         "args": {"quick": ["--driver", "iour", "--iters", 300, "--budget-ms", 60000],
+                  "thorough": ["--driver", "iour", "--iters", 2500, "--budget-ms", 420000]},
+         "timeout_s": {"quick": 300, "thorough": 1200}},
+        # single-driver configuration of compio-driver (the #[cfg(not(fusion))] glue of the multishot / zero-copy / managed
+        # operations; `iour-only` is compio's default build)
+        {"name": "poll-only", "build": "plain-poll", "pkg": "vrt", "cmd": "c14", "shards": 4,
+         "args": {"quick": ["--driver", "poll", "--iters", 300, "--budget-ms", 60000],
+                  "thorough": ["--driver", "poll", "--iters", 2500, "--budget-ms", 420000]},
+         "timeout_s": {"quick": 300, "thorough": 1200}},
     ],
 }
